@@ -1318,6 +1318,9 @@ def c12_probe_timers(ctx):
             # (the executor names a field read `obj<object>.<field path>`; the object is the &mut Probe returned by or_insert_with)
             if not (isinstance(val, BV) and re.match(r"obj[\w.]*or_insert_with_\d+\.\d+!", str(val.e))):
                 q.unknown.append(f"is_probing_done path {i}: pushed instant not traced to a field of the probe")
+            if not any(e[0] == "call" and e[1].endswith("HashSet::<String>::insert") for e in p.events):
+                q.fail.append(("a record is (still) being probed for a service, but the service is not put on the probe's waiting list: it is never woken up when the probe finishes (stays Probing for ever)",
+                               f"is_probing_done path {i}"))
             if n_false == 1:
                 q.witness(p.cond, f"classify: path {i} still probing")
         if n_false < 2 or n_true < 1:
@@ -2396,6 +2399,74 @@ def c07_resend_lookup_key(ctx):
     return q.result()
 
 
+def _walk_back(fn, block, max_steps=8):
+    """follow unique predecessors (normal edges only) upwards: a window that starts a little earlier sees the
+    initialisations (`let mut announced = false;`) that precede the anchor"""
+    preds = {}
+    for b, (_, t) in fn.blocks.items():
+        tt = re.sub(r"unwind: bb\d+", "", t)
+        for tgt in set(re.findall(r"bb\d+", tt)):
+            preds.setdefault(tgt, set()).add(b)
+    for _ in range(max_steps):
+        ps = preds.get(block, set())
+        if len(ps) != 1:
+            break
+        (pb,) = ps
+        if int(pb[2:]) >= int(block[2:]):
+            break   # a back edge
+        block = pb
+    return block
+
+
+def c07_announced_means_sent(ctx):
+    q = Q("c07_announced_means_sent", ["every function that marks a service Announced on an interface (add_interface, send_unsolicited_response, probing_handler, exec_command_register_resend): window from its first announce attempt"],
+          "every path from the first call of announce_service_on_intf in the function to its return / the end of the loop pass; the outcome of every announce attempt: Ok(true) / Ok(false) / Err",
+          ["window slices", "announce_service_on_intf is replaced by its signature: any of Ok(true), Ok(false), Err(_)", "other calls opaque"])
+    sites = 0
+    for name, fn in sorted(ctx.funcs.items()):
+        if "{closure" in name:
+            continue
+        ann_blocks = sorted((int(b[2:]), b) for b, (_, t) in fn.blocks.items() if re.search(r"= (?:\w+::)*announce_service_on_intf\(", t))
+        marks = any(re.search(r"= (?:\w+::)*ServiceStatus::Announced;", x) for st_, _ in fn.blocks.values() for x in st_)
+        if not ann_blocks or not marks:
+            continue
+        sites += 1
+        tag = name.split("::")[-1]
+        syms = []
+
+        def model(st, args, syms=syms):
+            d = z3.BitVec(f"announce_is_err!{next(_fresh)}", 64)
+            b = z3.Bool(f"announced!{next(_fresh)}")
+            st.cond.append(z3.ULE(d, z3.BitVecVal(1, 64)))
+            st.events.append(("announce-result", "", (d, b), None))
+            return Adt("Result::Ok?", [BoolV(b)], discr=d)
+        ex = Explorer(ctx.funcs, ctx.consts, max_paths=3000)
+        ex.call_models = {"announce_service_on_intf": model}
+        paths = ex.explore(fn.name, start_block=_walk_back(fn, ann_blocks[0][1]))
+        if ex.cut_paths:
+            q.unknown.append(f"{tag}: path budget exhausted")
+        n_mark = 0
+        for i, p in enumerate(paths):
+            if not (p.outcome == "return" or p.outcome.startswith("cut:loop")):
+                continue
+            sent = []
+            for e in p.events:
+                if e[0] == "announce-result":
+                    sent.append(z3.And(e[2][0] == 0, e[2][1]))
+                if e[0] == "call" and e[1].endswith("::set_status") and len(e[2]) >= 3 and isinstance(e[2][2], Adt) and e[2][2].name.endswith("Announced"):
+                    n_mark += 1
+                    q.valid(p.cond, z3.Or(*sent) if sent else z3.BoolVal(False),
+                            f"{tag}: path {i}: a service is marked Announced on an interface only if an announcement went out there on this path", allow_havoc=True)
+                    if n_mark == 1:
+                        q.witness(p.cond, f"{tag}: path {i}")
+        if n_mark == 0:
+            q.unknown.append(f"{tag}: no path from the announce attempt marks the service Announced")
+    if sites < 4:
+        q.unknown.append(f"expected 4 functions that announce and mark Announced (found {sites})")
+    q.fail = q.fail[:6]
+    return q.result()
+
+
 def c07_check_probing_paths(ctx):
     q = Q("c07_check_probing_paths", ["check_probing (one probe, first loop iteration)", "Probe::expired", "Probe::update_next_send"],
           "every path of one iteration of check_probing over an ARBITRARY probe (start_time, next_send < 2^62) and any now < 2^62",
@@ -2503,7 +2574,7 @@ SPECS = {
     "C10": [c10_update_ttl, c10_known_answer_filter, c10_suppressed_ptr_no_additionals],
     "C05": [c05_reset_restores, c05_verify_deadline, c05_verify_shortens_only, c05_evict_predicate, c05_removed_addr_key, c11_cache_flush_rule],
     "C18": [c18_affected_host_lowercase, c11_cache_flush_rule, c18_intf_removed_purges_both, c18_deleted_before_added],
-    "C07": [c07_probe_clock, c07_reannounce_delay, c07_check_probing_paths, c07_resend_lookup_key],
+    "C07": [c07_probe_clock, c07_reannounce_delay, c07_check_probing_paths, c07_resend_lookup_key, c07_announced_means_sent, c12_probe_timers],
     "C12": [c12_poll_timeout, c12_ipcheck_rearm, c12_hostname_timeout_timer, c12_hostname_timeout_due, c12_response_record_timers, c12_rerun_has_timer, c12_probe_timers, c12_conflict_probe_timer, c12_tiebreak_retry_timer, c11_cache_flush_rule, c05_verify_deadline, c07_check_probing_paths],
     "C19": [c19_browse_backoff, c19_hostname_backoff, c19_resolve_retry, c19_initial_delay, c19_rerun_due, c19_browse_listener_gone],
     "C08": [c08_tiebreak_count_operands, c08_rename_by_record_kind, c08_answer_uses_resolved_host, c06_additionals_use_resolved_names],
